@@ -4,7 +4,8 @@ P=$1; shift
 [ -f "$P" ] || { [ -f /verif/refactors/$P/patch.diff ] && P=/verif/refactors/$P/patch.diff; }
 [ -f "$P" ] || { [ -f /verif/seeded/$P/patch.diff ] && P=/verif/seeded/$P/patch.diff; }
 WT=${RF_WT:-/tmp/dev_wt}
-git -C $WT checkout -q -- . && git -C $WT clean -fdq && git -C $WT apply --whitespace=nowarn $P || exit 2
+git -C $WT checkout -q -- . && git -C $WT clean -fdq
+[ "$P" = "-" ] || git -C $WT apply --whitespace=nowarn $P || exit 2
 for c in "$@"; do
   VERIF_REPO=$WT VERIF_BUILD=${WT}_build VERIF_OUT=${WT}_out /verif/check $c --tier quick 2>&1 | grep -v "^\[facts\]" | cut -c1-600 | tail -${RF_TAIL:-8}
 done
